@@ -91,6 +91,7 @@ class Cfg:
                 ops.append(("has", 4, a, 0))   # Cache.contains(): a presence query is not an access
             ops.append(("stats", 4, base, 0))  # the statistics are asked for (an observer as an operation)
             ops.append(("view", 4, base, 0))   # the cache table is looked at
+            ops.append(("table", 4, base, 0))  # the data-memory table is looked at
         if alphabet in ("word", "control", "wordz"):
             ops.append(("reset", 4, base, 0))  # what load_program does to the memory system: everything is cleared
         if variant == "mixed":
